@@ -310,12 +310,7 @@ def trace_validate(chk, lines, name="trace"):
     (chk.wd / "I_TraceSerOpts.tla").write_text(mod)
     r = tlc.run(chk.wd, "I_TraceSerOpts", cfg, workers=1, timeout=3000, env={"TRACE_FILE": str(f)})
     chk.note_tlc(f"Trace_SerOpts/{name}", r, "trace-validation")
-    rej = [int(ln.split(",")[1]) for ln in r.stdout.splitlines() if ln.startswith('<<"REJECT"')]
-    if r.distinct - 1 != len(lines):
-        raise tlc.MachineryError(f"Trace_SerOpts consumed {r.distinct - 1} of {len(lines)} lines\n" + r.stdout[-3000:])
-    if not r.ok and not rej:
-        raise tlc.MachineryError("Trace_SerOpts failed without naming a line:\n" + r.stdout[-3000:])
-    return rej
+    return sorted(tlc.rejected(r, len(lines), "Trace_SerOpts"))
 
 
 def run(chk: core.Check):
